@@ -122,3 +122,6 @@ def diff_c01(program: dict, po=None, so=None) -> list[dict]:
                 dclass = "names" if d.startswith("names") else "rowcount" if d.startswith("row counts") else "cell"
                 diffs.append(dict(kind="frames_differ", stmt=st["id"], op="export", detail=d, dclass=dclass, ordered=bool(st.get("ordered"))))
     return diffs
+
+
+# campaign oracles are looked up by name with the signature (program, polars_obs, sqlite_obs)
